@@ -401,7 +401,7 @@ def type_alias_probes(ctx: Ctx, eng):
 def run(ctx: Ctx):
     eng = morph.Engine(ctx)
     type_alias_probes(ctx, eng)
-    specs = eng.gen_specs(ctx.budget(180, 2500), 3 if ctx.tier == "quick" else 4, related=True, literal_unions=True)
+    specs = eng.gen_specs(ctx.budget(180, 2500), 3 if ctx.tier == "quick" else 4, related=True, literal_unions=True, iter_matrix=True)
     recs = eng.load_records(specs, suite="load", n_valid=2, n_corrupt=3, n_hostile=3)
     for rec in recs:
         ill = rec.origin != "valid"
@@ -415,10 +415,11 @@ def run(ctx: Ctx):
     builtin_subclass_union_probes(ctx, eng)
     for rec in drecs:
         union_dump_oracle(ctx, eng, rec)
-        if rec["origin"] != "typed" or spec_has_model(rec["spec"]) or morph.spec_has_union(rec["spec"]):
+        if rec["origin"] not in ("typed", "typed-alt") or spec_has_model(rec["spec"]) or morph.spec_has_union(rec["spec"]):
             continue
         want = documented_dump(rec["spec"], rec["value"])
-        ctx.note_case({"t": rec["spec"].ty, "x": morph.enc(rec["value"])}, nontrivial=rec["spec"].children != [], kind="dump-form")
+        ctx.note_case({"t": rec["spec"].ty, "x": morph.enc(rec["value"])}, nontrivial=rec["spec"].children != [],
+                      kind="dump-form" + (":other-container" if rec["origin"] == "typed-alt" else ""))
         if want is UNKNOWN:
             continue
         real = rec["real"]["DISABLE"]
@@ -435,7 +436,7 @@ def run(ctx: Ctx):
 def search(ctx: Ctx):
     eng = morph.Engine(ctx)
     eng.drv = None
-    specs = eng.gen_specs(2000, 4, related=True, literal_unions=True)
+    specs = eng.gen_specs(2000, 4, related=True, literal_unions=True, iter_matrix=True)
     for rec in eng.load_records(specs, n_valid=2, n_corrupt=4, n_hostile=4):
         oracle_load(ctx, eng, rec)
     builtin_subclass_union_probes(ctx, eng)
